@@ -456,7 +456,7 @@ def run_real(w, limit=10000):
     pb, kw, BacktrackSolver = build_real(w)
     real_history(pb, kw, w.get("history"))
     s = BacktrackSolver(pb, **kw)
-    mode = w.get("mode", "solve")
+    mode = w.get("mode", "solve").replace("_q", "")
     if mode == "solve":
         sols = []
         for x in s.solve():
@@ -516,7 +516,7 @@ def replay_solve(r):
     sols, stats = res
     sem = semantic_solutions(r)
     info = f"real={sols[:6]} semantic={sem[:6]}"
-    mode = r.get("mode", "solve")
+    mode = r.get("mode", "solve").replace("_q", "")
     if kind == "reported-vector-is-not-a-solution":
         return any(s not in sem for s in sols), info
     if kind == "solution-yielded-twice" or kind == "more-solutions-than-assignments":
